@@ -142,6 +142,22 @@ def semantic(ctx, N):
                 continue
             ctx.count(1, ('semantic', name))
             compare(name, got, reference(mpm, name, comps), comps)
+        # base points of small magnitude (1e-13 .. 1e-3, perturbations a fixed fraction of the base point): nothing in the formulas may carry an
+        # absolute scale
+        if k % 2 == 0:
+            for name in ('log', 'sqrt', 'log2', 'log10', 'exp', 'sin', 'cos', 'tan', 'sinh', 'cosh', 'tanh', 'arctan', 'arcsinh'):
+                xs = float(10.0 ** rng.uniform(-13, -3))
+                hs = [xs * float(10.0 ** rng.uniform(-8, -1) * rng.choice([-1, 1])) for _ in range(3)]
+                if (k // 2) % 3 == 1:
+                    hs[1] = hs[2] = 0.0
+                zs, cs = Bicomplex(xs + 1j * hs[0], hs[1] + 1j * hs[2]), [xs, hs[0], hs[1], hs[2]]
+                try:
+                    got = getattr(zs, name)()
+                except Exception as ex:  # noqa
+                    ctx.violation('raises:%s' % name, 'Bicomplex.%s raises %r at a small base point' % (name, ex), {'function': name, 'z': cs})
+                    continue
+                ctx.count(1, ('semantic-small', name))
+                compare(name + ' at a small base point', got, reference(mpm, name, cs), cs)
         # operators
         pat = None if k % 3 == 0 else (k // 3) % 8
         a, ca = rand_bc(rng, -2, 2, Bicomplex, pattern=pat)
